@@ -60,6 +60,14 @@ def model():
     typed_input('InPeople', 'tPeople')
     typed_input('InSmall', 'tSmall')
     typed_input('InAlias', 'tAlias')
+    # collections of a REFERENCED item definition (a simple type with allowed values, a component type) and a component type as an OUTPUT type
+    p.insert(2, '  <itemDefinition name="tSmallList" isCollection="true"><typeRef>tSmall</typeRef></itemDefinition>')
+    p.insert(2, '  <itemDefinition name="tPersonList" isCollection="true"><typeRef>tPerson</typeRef></itemDefinition>')
+    p.insert(2, '  <itemDefinition name="tPair"><itemComponent name="a"><typeRef>number</typeRef></itemComponent><itemComponent name="b"><typeRef>boolean</typeRef></itemComponent></itemDefinition>')
+    typed_input('InSmallList', 'tSmallList')
+    typed_input('InPersonList', 'tPersonList')
+    for (n_, text) in (('ok', '{a: 1, b: true}'), ('other_name', '{a: 1, c: "x"}'), ('other_names', '{c: 1, d: true}'), ('wrong_kind', '{a: 1, b: "x"}'), ('missing', '{a: 1}'), ('not_a_context', '1')):
+        typed_output('Pair_%s' % n_, 'tPair', text)
     for w in ('1', '2', '3', '"a"', 'true'):
         typed_output('Small_%s' % w.strip('"'), 'tSmall', w)
     # decision services: the result of the (untyped) output decision is coerced to the service's own output variable type
@@ -113,6 +121,14 @@ def cases():
     out.append(('{InPeople: [{name: "a", age: 1}, {name: "b"}]}', {'Echo_InPeople': 'null'}))
     out.append(('{InPeople: [{name: "a", age: 1}, 5]}', {'Echo_InPeople': 'null'}))
     out.append(('{InPeople: []}', {'Echo_InPeople': '[]'}))
+    # a collection of a referenced type: every item is judged by the referenced definition, whatever its position
+    for (w, e) in (('[1, 2]', '[1, 2]'), ('[4, 1]', '[null, 1]'), ('[1, 4]', '[1, null]'), ('["a", 2, 3]', '[null, 2, 3]'), ('[1, true, 3]', '[1, null, 3]'), ('[4]', '[null]'), ('[]', '[]'), ('[4, 5, 1]', '[null, null, 1]')):
+        out.append(('{InSmallList: %s}' % w, {'Echo_InSmallList': e}))
+    out.append(('{InPersonList: [{name: "a", age: "x"}, {name: "b", age: 2}]}', {'Echo_InPersonList': '[{age: null, name: "a"}, {age: 2, name: "b"}]'}))
+    out.append(('{InPersonList: [{name: 1, age: 1}, {name: "b", age: 2}, {name: "c", age: 3}]}', {'Echo_InPersonList': '[{age: 1, name: null}, {age: 2, name: "b"}, {age: 3, name: "c"}]'}))
+    out.append(('{InPersonList: [{name: "a", age: 1}]}', {'Echo_InPersonList': '[{age: 1, name: "a"}]'}))
+    # a context result conforms to a component type only with the declared entry names
+    out.append(('{}', {'Out_Pair_ok': '{a: 1, b: true}', 'Out_Pair_other_name': 'null', 'Out_Pair_other_names': 'null', 'Out_Pair_wrong_kind': 'null', 'Out_Pair_not_a_context': 'null'}))
     for (w, e) in (('1', '1'), ('2', '2'), ('3', '3'), ('4', 'null'), ('0', 'null'), ('"a"', 'null'), ('true', 'null')):
         out.append(('{InSmall: %s}' % w, {'Echo_InSmall': e}))
         out.append(('{InAlias: %s}' % w, {'Echo_InAlias': e}))
